@@ -386,7 +386,7 @@ Definition action_of_code (c : N) : option action :=
   else if c =? 4 then Some AReplaceFile else if c =? 5 then Some ACreateDirectory
   else if c =? 6 then Some ARemoveDirectory else if c =? 7 then Some ADenyFile
   else if c =? 8 then Some ADenyDirectory else None.
-Definition fs_request (code : N) (n1 n2 : list N) : option request :=
+Definition fs_mk_request (code : N) (n1 n2 : list N) : option request :=
   match action_of_code code with
   | Some a => Some (mk_request a n1 n2)
   | None => None
